@@ -762,3 +762,63 @@ def _max_excess(cfg, head, body, cvar, ivar):
         for (s, _l) in n.succs:
             work.append((s, ex))
     return worst
+
+
+def rule_shift_distance(prog, rep, rid='G2'):
+    """Element shifts move by exactly one element: in the function that inserts (count incremented) every copy whose source
+    lies at or behind the insertion point has destination offset = source offset + objsize; in the function that removes
+    (count decremented) destination offset = source offset - objsize.  Offsets are compared as polynomials relative to the
+    start of the element array (the old or a new block)."""
+    from .dataflow import offset_split, poly_of, Poly
+    rep.rule(rid, 'element shifts move the tail by exactly one element: destination offset - source offset = +objsize on insertion, '
+                  '-objsize on removal (symbolic offsets relative to the array start)')
+    prog.unit(UNIT)
+    for f in sorted(prog.funcs_in(UNIT), key=lambda x: x.line or 0):
+        if f.body is None:
+            continue
+        incs = any(x.get('kind') == 'UnaryOperator' and x.get('opcode') == '++' and canon(children(x)[0]).endswith('->num') for x in walk(f.body))
+        decs = any(x.get('kind') == 'UnaryOperator' and x.get('opcode') == '--' and canon(children(x)[0]).endswith('->num') for x in walk(f.body))
+        if incs and decs:
+            continue
+        ips = {p.get('name') for p in f.params if ((p.get('type') or {}).get('qualType') or '') in ('int', 'size_t', 'long')}
+        rd = None
+        for n in f.cfg.nodes:
+            if not isinstance(n.ast, dict) or n.kind == 'macro' or n.id not in f.cfg.reachable:
+                continue
+            for x in walk(n.ast):
+                if x.get('kind') != 'CallExpr' or prog.callee_name(x) not in ('memcpy', 'memmove'):
+                    continue
+                args = children(x)[1:]
+                if len(args) < 3:
+                    continue
+                rd = rd or ReachingDefs(f)
+                if n.id not in rd.IN:
+                    continue
+                _bd, od = offset_split(args[0], rd, n.id)
+                _bs, os_ = offset_split(args[1], rd, n.id)
+
+                def norm(p):
+                    return Poly({tuple(a for a in mono if a != 'sizeof(char)'): c for mono, c in p.t.items()})
+                od, os_ = norm(od), norm(os_)
+                # only copies that start at or behind the position given by an index parameter (or a loop variable)
+                def positional(p):
+                    return any(m for m in p.t if m != () and any('objsize' in a for a in m) and len(m) >= 2)
+                if not positional(os_) or not positional(od):
+                    continue            # copies out of / into the array (one side is another buffer) are not shifts
+                if not (incs or decs) and _bd != _bs:
+                    continue
+                diff = od - os_
+                if not (incs or decs) and any(len(m) != 1 or not m[0].endswith('->objsize') for m in diff.t if m != ()):
+                    continue            # an exchange between two computed positions (reverse), not a shift by a fixed distance
+                want = Poly({(a,): 1 for a in []})
+                objs = [m for m in diff.t if len(m) == 1 and m[0].endswith('->objsize')]
+                rep.instance(rid)
+                wanted = (1,) if incs else ((-1,) if decs else (1, -1))     # a helper without count update: one element either way
+                ok = len(diff.t) == 1 and len(objs) == 1 and diff.t[objs[0]] in wanted
+                rep.oblige(rid, ok, {'function': f.name, 'line': x.get('_line'), 'dst_minus_src': repr(diff),
+                                     'kind': 'insert' if incs else ('remove' if decs else 'shift helper')})
+                if not ok:
+                    rep.violation(rid, f, x.get('_line'), 'shift:%s' % canon(x)[:30],
+                                  '%s moves elements by %s, expected %s one element (%sobjsize): the %s' % (
+                                      canon(x)[:60], repr(diff), 'up by' if incs else 'down by', '+' if incs else '-',
+                                      'gap for the new element is not opened / an element is overwritten' if incs else 'hole is not closed'))
